@@ -273,6 +273,26 @@ def mutate(rng, text, n=None):
     return "".join(toks)[:MAX_TEXT]
 
 
+_LET_LIT = re.compile(r'^(let\s+[A-Za-z_][A-Za-z0-9_-]*\s*=\s*)("(?:[^"\\]|\\.)*"|[0-9]+)(\s*;)', re.M)
+
+
+def semantic_edit(rng, text):
+    """An edit an importer can see: a top-level binding changes its type, disappears or is renamed (the text stays well-formed)."""
+    ms = list(_LET_LIT.finditer(text))
+    if not ms:
+        return mutate(rng, text)
+    m = rng.choice(ms)
+    k = rng.weighted([("retype", 5), ("remove", 2), ("rename", 2)])
+    if k == "retype":
+        lit = m.group(2)
+        new = str(rng.below(100)) if lit.startswith('"') else '"retyped"'
+        return text[:m.start(2)] + new + text[m.end(2):]
+    if k == "remove":
+        end = text.find("\n", m.end())
+        return text[:m.start()] + text[(end + 1) if end >= 0 else len(text):]
+    return text[:m.start()] + m.group(1).replace("let ", "let renamed_", 1) + m.group(2) + m.group(3) + text[m.end():]
+
+
 def random_utf8(rng):
     n = rng.weighted([(0, 1), (rng.between(1, 20), 4), (rng.between(20, 400), 3), (rng.between(400, 1500), 1)])
     alpha = ["a", "z", "0", " ", "\n", "\r\n", "\r", "\t", '"', "'", "\\", "{", "}", ";", "=", "/", "*", "@", "%", ".", ",", "(", ")", "[", "]", "|", ":",
